@@ -286,6 +286,27 @@ fn check_typed_positions(i: i64) -> CaseResult {
             }
         }
     }
+    // ... nor does a name that shares its low bits with it (a multiple of 64 / 256 / 65536 away)
+    if i < 0 && claim_ok(i) {
+        for step in [64i64, 256, 65536] {
+            let mut k = i.saturating_sub(step);
+            if k > -65537 {
+                k -= ((k + 65537 + step - 1) / step) * step;
+            }
+            if k == i || !claim_ok(k) || k == i64::MIN {
+                continue;
+            }
+            let bytes = m(vec![(Item::Int(i as i128), Item::Null), (Item::Int(k as i128), Item::Int(1))]);
+            match ClaimsSet::from_slice(&bytes) {
+                Ok(c) => {
+                    ensure!(c.rest.len() == 2, "claims set with the names {} and {} decoded to {} claims", i, k, c.rest.len());
+                    let (l0, l1) = (crate::model::claim_name_to_l(&c.rest[0].0)?, crate::model::claim_name_to_l(&c.rest[1].0)?);
+                    ensure!(l0 == L::Int(i) && l1 == L::Int(k), "claims set with the names {} and {} decoded as {:?} and {:?}", i, k, l0, l1);
+                }
+                Err(e) => fail!("claims set with the two distinct registered / private-use names {} and {} ({} apart) rejected: {:?}", i, k, i - k, e),
+            }
+        }
+    }
     if !(1..=7).contains(&i) && !(1..=7).contains(&j) {
         let bytes = m(vec![(Item::Int(i as i128), Item::Null), (Item::Int(j as i128), Item::Int(1))]);
         match Header::from_slice(&bytes) {
